@@ -13,7 +13,7 @@
 (*   and ImageD11/sinograms/assemble_label.py harvest_masterfile 104-204.  *)
 (*                                                                         *)
 (* Numbers: every motor position / bin quantity is an integer numerator    *)
-(* over DEN = 8 (exact rational arithmetic; Div asserts exactness, so TLC  *)
+(* over DEN = 24 (exact rational arithmetic; Div asserts exactness, so TLC  *)
 (* itself proves that the dataset alphabet never needs rounding).  Counts  *)
 (* (nnz, frames, monitor readings) are plain integers.                     *)
 (*                                                                         *)
@@ -48,7 +48,8 @@
 (* compare(x,y), compare(y,x), the digitize() cell of every sample.        *)
 (*                                                                         *)
 (* Laws (invariants unless said otherwise)                                 *)
-(*   TypeOK / WellFormed  after a successful import the shapes agree       *)
+(*   WellFormedAfter (action property) a successful import_all /            *)
+(*                   import_from_sparse / load leaves shapes that agree     *)
 (*   Partition       bins defined => every (omega_for_bins, dty) sample is *)
 (*                   in exactly one (obinedges, ybinedges) cell            *)
 (*   HistTotal       sinohist sums to the number (weight) of samples       *)
@@ -105,7 +106,7 @@ CONSTANTS MaxDepth, DsNames, StartForms, EmitMode,
 VARIABLES s, hist
 vars == <<s, hist>>
 
-DEN == 8
+DEN == 24
 NONE == "<None>"
 UNSET == "<unset>"
 
@@ -196,7 +197,6 @@ DsTable == [d \in DsNames |->
 ScanArgs(d) == CASE d = "R180" -> {<<"3.1", "1.1">>, <<"9.1">>}
                  [] d = "ZIG" -> {<<"2.1", "4.1">>}
                  [] OTHER -> {}
-Regular(d) == d \in {"R180", "F2D", "BADS", "ZIG"}
 
 \* ---- peak tables the environment may put at ds.pksfile: <<s1, sI, srI, scI, frame, glabel>> -------
 Peaks(v) == IF v = 1 THEN << <<2, 10, 20, 30, 0, 0>>, <<3, 20, 40, 60, 1, 0>>, <<1, 6, 6, 12, 4, 1>> >>
@@ -366,11 +366,11 @@ Reshape(a, s0, s1) ==
   IF aa.ok /\ Size(aa.a) = s0 * s1 THEN [ok |-> TRUE, a |-> Arr(<<s0, s1>>, aa.a.v, aa.a.dt)]
   ELSE [ok |-> FALSE, a |-> a]
 GuessShapeOp(d, disk, o) ==
-  IF o.scans.k = "none" \/ o.fps.k = "none" THEN R(o, "TypeError")
+  IF o.scans.k = "none" THEN R(o, "TypeError")
   ELSE
   LET mk == MKind(d, disk, o.masterfile)
       bases == Dedup(MapSeq(o.scans.v, LAMBDA e : e.b), {})
-      npts == SumSeq(o.fps.v)
+      npts == IF o.fps.k = "none" THEN 0 ELSE SumSeq(o.fps.v)        \* np.sum(None) is None: fails at npts // s0
   IN IF mk = "sparse" /\ bases # <<>> THEN R(o, "KeyError")                 \* no title in an assembled sparse file
      ELSE IF mk = "raw" /\ \E i \in 1..Len(bases) : ~InMaster(d, bases[i]) THEN R(o, "KeyError")
      ELSE
@@ -380,7 +380,8 @@ GuessShapeOp(d, disk, o) ==
          o1 == [o EXCEPT !.scans = SL(rot), !.shape = <<s0, s1>>]
          ro == Reshape(o.omega, s0, s1)
          rd == Reshape(o.dty, s0, s1)
-     IN IF ~ro.ok THEN R(o1, "ValueError")
+     IN IF o.fps.k = "none" THEN R([o EXCEPT !.scans = SL(rot)], "TypeError")
+        ELSE IF ~ro.ok THEN R(o1, "ValueError")
         ELSE IF ~rd.ok THEN R([o1 EXCEPT !.omega = ro.a], "ValueError")
         ELSE IF ~o.imageshape THEN R([o1 EXCEPT !.omega = ro.a, !.dty = rd.a], "AttributeError")
         ELSE R([o1 EXCEPT !.omega = ro.a, !.dty = rd.a], "ok")
@@ -627,7 +628,8 @@ SaveNd(o, c, ks) ==
   ELSE LET k == Head(ks)   a == NdOf(o, k) IN
        IF a.k \in {"none", "unset"} THEN SaveNd(o, c, Tail(ks))
        ELSE LET sa == SaveArr(a)   old == c.nd[k] IN
-            IF sa.exc # "ok" THEN [c |-> c, exc |-> sa.exc]
+            IF a.k = "plist" /\ a.v = <<>> /\ old.k = "arr" /\ BUG_SAVESHAPE THEN [c |-> c, exc |-> "TypeError"]
+            ELSE IF sa.exc # "ok" THEN [c |-> c, exc |-> sa.exc]
             ELSE IF old.k = "arr" /\ old.sh # sa.a.sh /\ BUG_SAVESHAPE THEN [c |-> c, exc |-> "TypeError"]
             ELSE IF old.k = "arr" /\ old.sh = sa.a.sh /\ old.dt # sa.a.dt /\ BUG_SAVESHAPE THEN [c |-> c, exc |-> "TypeError"]
             ELSE SaveNd(o, [c EXCEPT !.nd[k] = sa.a], Tail(ks))
@@ -731,13 +733,16 @@ SameArr(a, b) == IF a.k \in {"none", "unset"} \/ b.k \in {"none", "unset"}
                  ELSE /\ SaveArr(a).exc = "ok" /\ SaveArr(b).exc = "ok"
                       /\ SaveArr(a).a.sh = SaveArr(b).a.sh /\ SaveArr(a).a.v = SaveArr(b).a.v
 AbsentLike(x) == x \in {NONE, UNSET}
-PersistEq(a, b) ==
-  /\ \A k \in StrKeys : (AbsentLike(StrOf(a, k)) /\ AbsentLike(StrOf(b, k))) \/ StrOf(a, k) = StrOf(b, k)
+\* lax: a None / unset string of b is not persisted, so a (loaded from b's file) may hold any default
+PersistEqG(a, b, lax) ==
+  /\ \A k \in StrKeys : \/ (AbsentLike(StrOf(a, k)) /\ AbsentLike(StrOf(b, k))) \/ StrOf(a, k) = StrOf(b, k)
+                         \/ (lax /\ AbsentLike(StrOf(b, k)))
   /\ a.shape = b.shape /\ RatEq(a.mref, b.mref)
   /\ \A k \in Range(ListKeys) : LET la == ListOf(a, k)  lb == ListOf(b, k) IN
                                    IF la.k = "none" \/ lb.k = "none" THEN la.k = lb.k \/ (la.k = "seq" /\ la.v = <<>>) \/ (lb.k = "seq" /\ lb.v = <<>>)
                                    ELSE la.v = lb.v
   /\ \A k \in Range(NDseq) : SameArr(NdOf(a, k), NdOf(b, k))
+PersistEq(a, b) == PersistEqG(a, b, FALSE)
 Cmp(a, b) ==
   IF ~BUG_COMPARE THEN (IF PersistEq(a, b) THEN {"True"} ELSE {"False"})
   ELSE LET miss == {n \in CmpNames : CellOf(a, n).p /\ ~CellOf(b, n).p}
@@ -804,13 +809,14 @@ ProjObj(d, disk, o, other) ==
    obincens |-> PA(o.obincens), obinedges |-> PA(o.obinedges), ybincens |-> PA(o.ybincens), ybinedges |-> PA(o.ybinedges),
    ofb |-> PA(o.ofb), omin |-> PN(o.omin), omax |-> PN(o.omax), ostep |-> PN(o.ostep),
    ymin |-> PN(o.ymin), ymax |-> PN(o.ymax), ystep |-> PN(o.ystep),
-   pt |-> o.pt, pk2d |-> PTab(o.pk2d), pk4d |-> PTab(o.pk4d),
+   pt |-> o.pt, pk2d |-> PTab(o.pk2d), pk4d |-> PTab(o.pk4d), pad |-> o.pad,
    \* observers
    histdef |-> HistDef(o),
    h |-> IF HistDef(o) THEN HistOf(o, FALSE) ELSE <<>>,
    wh |-> IF HistDef(o) THEN HistOf(o, TRUE) ELSE <<>>,
    edgehit |-> IF HistDef(o) THEN EdgeHit(o) ELSE FALSE,
    cells |-> IF BinsDone(o) THEN Cells(o) ELSE <<>>,
+   celledge |-> BinsDone(o) /\ \E t \in 1..Size(o.ofb) : Has(o.obinedges.v, o.ofb.v[t]) \/ Has(o.ybinedges.v, o.dty.v[t]),
    mon |-> [exc |-> GetMon(d, disk, o).exc, a |-> PA(GetMon(d, disk, o).a)],
    cmp |-> IF other.dataroot = "" THEN <<>> ELSE SetToSeq(Cmp(o, other))]
 PFile(e) == LET c == e.c IN
@@ -866,7 +872,8 @@ ImportAll(arg) == En /\ OnRaw /\ Do(ImportAllOp(s.d, s.disk, s.x, arg), <<"impor
 Harvest == En /\ CanHarvest(s.d, s.disk, s.x)
            /\ Commit([s EXCEPT !.disk = HarvestDisk(s.d, s.disk, s.x)], <<"harvest">>, "ok")
 ImportFromSparse(arg, sh) == En /\ Do(ImportFromSparseOp(s.d, s.disk, s.x, arg, sh), <<"import_from_sparse", ArgStr(arg), sh>>)
-HalfScan(y0) == En /\ Do(HalfScanOp(s.x, y0), <<"correct_bins_for_half_scan", y0>>)
+\* (a zero ystep - stale single-centre bins on a two row shape - makes the real code produce NaNs: not explored)
+HalfScan(y0) == En /\ (s.x.ystep.k = "num" => s.x.ystep.n # 0) /\ Do(HalfScanOp(s.x, y0), <<"correct_bins_for_half_scan", y0>>)
 SetMonitor == En /\ Do(SetMonitorOp(s.d, s.disk, s.x), <<"set_monitor">>)
 Save(named) == En /\ LET r == SaveOp(s.disk, s.x, named)
                      IN Commit([s EXCEPT !.x = r.o, !.disk = r.disk], <<"save", named>>, r.ret)
@@ -912,19 +919,31 @@ HasY == s.y.dataroot # ""
 TypeOK == /\ s.d \in DsNames /\ Len(s.x.shape) = 2
           /\ s.x.shape[1] >= 0 /\ s.x.shape[2] >= 0
 \* after the bins were computed the shapes agree
-WellFormed == BinsDone(X) => /\ Len(X.obinedges.v) = Len(X.obincens.v) + 1
-                             /\ Len(X.ybinedges.v) = Len(X.ybincens.v) + 1
-                             /\ X.omega.sh = X.dty.sh /\ X.ofb.sh = X.omega.sh
-Partition == BinsDone(X) =>
-   \A t \in 1..Size(X.ofb) : /\ Cells(X)[t][1] \in 0..(Len(X.obincens.v) - 1)
-                             /\ Cells(X)[t][2] \in 0..(Len(X.ybincens.v) - 1)
+WF(o) == /\ BinsDone(o) /\ Len(o.obinedges.v) = Len(o.obincens.v) + 1 /\ Len(o.ybinedges.v) = Len(o.ybincens.v) + 1
+         /\ o.omega.sh = o.dty.sh /\ o.ofb.sh = o.omega.sh /\ o.shape = o.omega.sh
+WellFormed == WF(X)
+RowConstY(o) == LET rd == RowsOf(o.dty.v, o.dty.sh[1], o.dty.sh[2]) IN \A i \in 1..Len(rd) : Len(Dedup(rd[i], {})) = 1
+\* (the half-scan padding works from ybincens: it presumes one dty per row, i.e. a proper sinogram shape)
+InBins(o) == \A t \in 1..Size(o.ofb) : /\ Cells(o)[t][1] \in 0..(Len(o.obincens.v) - 1)
+                                        /\ Cells(o)[t][2] \in 0..(Len(o.ybincens.v) - 1)
+Partition == (WF(X) /\ (X.pad => RowConstY(X))) => InBins(X)
 \* no float-ambiguous sample in the explored alphabet, apart from the stale-bins states (then the harness skips hist)
-HistTotal == (HistDef(X) /\ WellFormed /\ Partition /\ ~(BUG_SINOHIST \/ BUG_LOAD360)) =>
+HistTotal == (HistDef(X) /\ WF(X) /\ InBins(X) /\ ~(BUG_SINOHIST \/ BUG_LOAD360)) =>
                 /\ Total(HistOf(X, FALSE)) = Size(X.ofb)
                 /\ Total(HistOf(X, TRUE)) = SumSeq([t \in 1..Size(X.ofb) |-> t])
-HistMatchesEdges == (HistDef(X) /\ WellFormed /\ ~EdgeHit(X)) => HistOf(X, FALSE) = EdgeHist(X)
+HistMatchesEdges == (HistDef(X) /\ WF(X) /\ ~EdgeHit(X)) => HistOf(X, FALSE) = EdgeHist(X)
 Distinct(v) == SortNum(Dedup(v, {}))
-CentresAreMotors == (Regular(s.d) /\ BinsDone(X) /\ ~X.pad) =>
+EqSpaced(q) == \A i \in 1..(Len(q) - 1) : q[i+1] - q[i] = q[2] - q[1]
+\* the realised grid is regular: every rotation visits the same equally spaced angles once, every row has one dty,
+\* the dty of the rows are distinct and equally spaced
+RegularGrid(o) ==
+  LET ro == RowsOf(o.ofb.v, o.ofb.sh[1], o.ofb.sh[2])    rd == RowsOf(o.dty.v, o.dty.sh[1], o.dty.sh[2]) IN
+  /\ Len(o.ofb.sh) = 2 /\ o.ofb.sh[1] >= 1 /\ o.ofb.sh[2] >= 2
+  /\ \A i \in 1..Len(ro) : SortNum(ro[i]) = SortNum(ro[1])
+  /\ Len(Distinct(ro[1])) = o.ofb.sh[2] /\ EqSpaced(Distinct(ro[1]))
+  /\ \A i \in 1..Len(rd) : Len(Distinct(rd[i])) = 1
+  /\ Len(Distinct(o.dty.v)) = o.dty.sh[1] /\ EqSpaced(Distinct(o.dty.v))
+CentresAreMotors == (WF(X) /\ ~X.pad /\ RegularGrid(X)) =>
                        /\ X.obincens.v = Distinct(X.ofb.v)
                        /\ X.ybincens.v = Distinct(X.dty.v)
 \* save to a fresh file and load into a fresh object
@@ -933,17 +952,19 @@ RT(o) == LET r == SaveOp(<<>>, o, TRUE)
              l == FreshLoad(r.disk, CUSTOM, NONE)
          IN [saved |-> r.ret = "ok", loaded |-> r.ret = "ok" /\ l.ret = "ok", o |-> l.o, disk |-> r.disk]
 DerivedEq(a, b) == /\ a.omin.n = b.omin.n /\ a.omax.n = b.omax.n /\ a.ostep.n = b.ostep.n
-                   /\ a.ymin.n = b.ymin.n /\ a.ymax.n = b.ymax.n
-RoundTripPersist == (BinsDone(X) /\ Saveable(X)) =>
-                       /\ RT(X).loaded
-                       /\ PersistEq([RT(X).o EXCEPT !.ofb = X.ofb], X) /\ DerivedEq(RT(X).o, X)
-RoundTripOfb == (BinsDone(X) /\ Saveable(X) /\ RT(X).loaded) => SameArr(RT(X).o.ofb, X.ofb)
-RoundTripYstep == (BinsDone(X) /\ Saveable(X) /\ RT(X).loaded) => RT(X).o.ystep.n = X.ystep.n
+                   \* a single row whose dty varies (fscan2d imported without shape=) has one centre: ymax is then
+                   \* dty.max() before and ybincens[-1] after the round trip; not promised
+                   /\ a.ymin.n = b.ymin.n /\ (b.shape[1] > 1 => a.ymax.n = b.ymax.n)
+RoundTripLoads == (WF(X) /\ Saveable(X)) => RT(X).loaded
+RoundTripPersist == (WF(X) /\ Saveable(X) /\ RT(X).loaded) => PersistEqG([RT(X).o EXCEPT !.ofb = X.ofb], X, TRUE)
+RoundTripDerived == (WF(X) /\ Saveable(X) /\ RT(X).loaded) => DerivedEq(RT(X).o, X)
+RoundTripOfb == (WF(X) /\ Saveable(X) /\ RT(X).loaded) => SameArr(RT(X).o.ofb, X.ofb)
+RoundTripYstep == (WF(X) /\ Saveable(X) /\ RT(X).loaded) => RT(X).o.ystep.n = X.ystep.n
 \* second generation: load(save(load(save(x)))) = load(save(x))
-LoadIdempotent == (BinsDone(X) /\ Saveable(X) /\ RT(X).loaded) =>
+LoadIdempotent == (WF(X) /\ Saveable(X) /\ RT(X).loaded) =>
                      LET g1 == RT(X).o    g2 == RT(g1) IN
-                     g2.loaded /\ PersistEq(g2.o, g1) /\ DerivedEq(g2.o, g1) /\ g2.o.ystep.n = g1.ystep.n
-SaveTotal == (BinsDone(X) /\ Saveable(X) /\ \A i \in 1..Len(s.disk) : s.disk[i].p = SavePath(s.disk, X, FALSE) => s.disk[i].c.kind = "ds")
+                     g2.loaded /\ PersistEqG(g2.o, g1, TRUE) /\ DerivedEq(g2.o, g1) /\ g2.o.ystep.n = g1.ystep.n
+SaveTotal == (WF(X) /\ Saveable(X) /\ \A i \in 1..Len(s.disk) : s.disk[i].p = SavePath(s.disk, X, FALSE) => s.disk[i].c.kind = "ds")
                 => SaveOp(s.disk, X, FALSE).ret = "ok"
 SaveTarget == DExists(s.disk, X.dsfile) => SavePath(s.disk, X, FALSE) = X.dsfile
 \* a scan with corrupted omega gets the omega of the good scan whose first angle is nearest (first one on ties)
@@ -962,7 +983,8 @@ BadScanBest ==
           IN r.ret = "ok" /\ r.o.omega.rows[b] = Scale(c(j).om)
 CompareSound == HasY => /\ ("True" \in Cmp(s.x, s.y) => PersistEq(s.x, s.y))
                         /\ ("True" \in Cmp(s.y, s.x) => PersistEq(s.y, s.x))
-CompareRoundTrip == (BinsDone(X) /\ Saveable(X) /\ RT(X).loaded /\ ~(BUG_LOAD360 \/ BUG_YSTEP)) =>
+CompareRoundTrip == (WF(X) /\ Saveable(X) /\ RT(X).loaded /\ X.analysispath # NONE
+                     /\ PersistEqG(RT(X).o, X, TRUE) /\ DerivedEq(RT(X).o, X) /\ RT(X).o.ystep.n = X.ystep.n) =>
                        LET l == [RT(X).o EXCEPT !.dsfile = X.dsfile] IN Cmp(l, X) = {"True"} /\ Cmp(X, l) = {"True"}
 CacheNoMix == /\ (X.pk2d.k = "tab" => X.pt # 0 /\ X.pk2d.pt = X.pt)
               /\ (X.pk4d.k = "tab" => X.pt # 0 /\ X.pk4d.pt = X.pt)
@@ -981,6 +1003,12 @@ PathsStep ==
     /\ (LastOp[1] = "load" /\ LastRet = "ok") =>
           \A n \in N12 \ Persisted12 : s.x.names[n] # NONE => s'.x.names[n] = s.x.names[n]
 PathsKept == [][PathsStep]_vars
+\* a successful import / load leaves a well formed object (a failed operation may not: see the header)
+WFStep == (hist' # hist /\ LastRet = "ok") =>
+             /\ LastOp[1] \in {"import_all", "import_from_sparse", "load"} => WF(s'.x)
+             /\ LastOp[1] = "load_new" => WF(s'.y)
+             /\ (LastOp[1] \in {"correct_bins_for_half_scan", "set_monitor", "update_paths", "save"} /\ WF(s.x)) => WF(s'.x)
+WellFormedAfter == [][WFStep]_vars
 MonitorStep == (hist' # hist /\ LastOp[1] = "set_monitor" /\ LastRet = "ok") =>
                   s'.x.pk2d.k = "none" /\ s'.x.pk4d.k = "none" /\ IsArr(s'.x.monitor) /\ s'.x.mref.k = "rat"
 MonitorResets == [][MonitorStep]_vars
@@ -993,6 +1021,6 @@ Compact(h) == [i \in 1..Len(h) |-> IF i = Len(h) THEN h[i] ELSE [op |-> h[i].op]
 Head0 == [d |-> s.d, form |-> s.form]
 EmitTransition == EmitMode # 1 \/ PrintT("@@" \o ToJson([start |-> [d |-> s'.d, form |-> s'.form], h |-> Compact(hist')]))
 EmitFinal == EmitMode # 2 \/ Len(hist) < MaxDepth \/ PrintT("@@" \o ToJson([start |-> Head0, h |-> hist]))
-EmitTable == PrintT("@@T" \o ToJson(DsTable))
+EmitTable == PrintT("@@N" \o ToString(DEN)) /\ PrintT("@@T" \o ToJson(DsTable)) /\ PrintT("@@P" \o ToJson([v \in PkVersions |-> Peaks(v)]))
 View == <<s, Len(hist)>>
 =============================================================================
